@@ -359,6 +359,17 @@ def run(tier):
                         'bound': 'array shapes 1x1..3x3, 3 random fillings each, flip 0..3, rotate 0..4', 'evaluations': na})
     for b in bada[:3]:
         rep.violation('C15/arrays/%s=%s/%s' % (b[0], b[1], b[3]), '%s_udgs(udgs, %d) on a %dx%d array: %s grid differs from the reference transformation' % (b[0], b[1], b[2][0], b[2][1], b[3]), {'case': {'array_op': b[0], 'arg': b[1], 'shape': list(b[2])}})
+    nfm, badf = frames_macro(common.seed(), 200 if tier == 'quick' else 3000)
+    rep.bounded.append({'function': 'skoolkit.skoolmacro.parse_frames (#FRAMES) -> ImageWriter.write_image (multi-frame APNG)',
+                        'contract': 'one frame per specification with the delay and offsets the documentation gives (delay carried over, offsets default (0,0)); fcTL/fdAT sequence numbers, acTL count; each frame decodes to the display rules',
+                        'bound': '%d sequences of 1-5 frames, every parameter form' % nfm, 'evaluations': nfm})
+    seenf = set()
+    for b in badf:
+        key = 'C15/frames/%s' % b[2]
+        if key in seenf:
+            continue
+        seenf.add(key)
+        rep.violation(key, b[0], {'case': {'frames_macro': b[1], 'seed': common.seed()}, 'observed': b[0]})
     nt = 160 if tier == 'quick' else 3000
     pert = max(1, nt // (common.NCPU * 2))
     with Pool(common.NCPU) as p:
@@ -420,6 +431,13 @@ def replay(path):
         if doc.get('no_failing_input_found'):
             print(doc.get('what'))
             print('VIOLATION property=C15 replay=%s no-failing-input-found' % path)
+            return 1
+        return 0
+    if isinstance(case, dict) and 'frames_macro' in case:
+        n, bad = frames_macro(case.get('seed', common.seed()), 3000)
+        print(bad[:2])
+        if bad:
+            print('VIOLATION property=C15 replay=%s' % path)
             return 1
         return 0
     if isinstance(case, dict) and 'sna2img_options' in case:
@@ -814,6 +832,149 @@ def macro_layer(seed, n):
                 bad.append((kind, text, d, detail))
         except Exception as ex:      # noqa: a macro built from the documented forms must parse
             bad.append((kind, locals().get('text', ''), 'exception', repr(ex)[:160]))
+    return ev, bad
+
+
+# ------------------------------------------------------------------ B: #FRAMES (multi-frame sequences with delays and offsets)
+def decode_apng_frames(png):
+    """Every frame of an APNG: [(x, y, w, h, delay_num, delay_den, rows of palette indexes)] (CRCs checked, filter 0 only)."""
+    assert png[:8] == b'\x89PNG\r\n\x1a\n', 'signature'
+    i = 8
+    chunks = []
+    while i < len(png):
+        n = struct.unpack('>I', png[i:i + 4])[0]
+        typ = png[i + 4:i + 8]
+        data = png[i + 8:i + 8 + n]
+        assert zlib.crc32(typ + data) & 0xffffffff == struct.unpack('>I', png[i + 8 + n:i + 12 + n])[0], 'crc of %r' % typ
+        chunks.append((typ, data))
+        i += 12 + n
+    w, h, bd, ct = struct.unpack('>IIBB', chunks[0][1][:10])
+    assert chunks[0][0] == b'IHDR' and ct == 3, 'IHDR'
+
+    def unpack(raw, w_, h_):
+        stride = (w_ * bd + 7) // 8 + 1
+        assert len(raw) == stride * h_, 'image data size %d != %d' % (len(raw), stride * h_)
+        rows = []
+        for y in range(h_):
+            line = raw[y * stride:(y + 1) * stride]
+            assert line[0] == 0, 'filter type'
+            rows.append([(line[1 + (x * bd) // 8] >> (8 - bd - (x * bd) % 8)) & ((1 << bd) - 1) for x in range(w_)])
+        return rows
+    plte = [d for t, d in chunks if t == b'PLTE'][0]
+    pal = [tuple(plte[k:k + 3]) for k in range(0, len(plte), 3)]
+    actl = [d for t, d in chunks if t == b'acTL']
+    frames = []
+    cur = None
+    seq = 0
+    for t, d in chunks:
+        if t == b'fcTL':
+            if cur is not None:
+                frames.append(cur)
+            sn, fw, fh, fx, fy, dn, dd = struct.unpack('>IIIIIHH', d[:24])
+            assert sn == seq, 'fcTL sequence number %d != %d' % (sn, seq)
+            seq += 1
+            cur = [fx, fy, fw, fh, dn, dd, b'']
+        elif t == b'IDAT':
+            if cur is None:
+                cur = [0, 0, w, h, 0, 100, b'']
+            cur[6] += d
+        elif t == b'fdAT':
+            sn = struct.unpack('>I', d[:4])[0]
+            assert sn == seq, 'fdAT sequence number %d != %d' % (sn, seq)
+            seq += 1
+            cur[6] += d[4:]
+    if cur is not None:
+        frames.append(cur)
+    if actl:
+        assert struct.unpack('>I', actl[0][:4])[0] == len(frames), 'acTL frame count %d != %d frames' % (struct.unpack('>I', actl[0][:4])[0], len(frames))
+    out = []
+    for fx, fy, fw, fh, dn, dd, raw in frames:
+        assert fx + fw <= w and fy + fh <= h, 'frame outside the canvas'
+        out.append((fx, fy, fw, fh, dn, dd, [[pal[v] for v in row] for row in unpack(zlib.decompress(raw), fw, fh)]))
+    return w, h, out
+
+
+def frames_macro(seed, n):
+    """#FRAMES(name[,delay,x,y];...) as the HTML writer expands it (skoolmacro.parse_frames on a frame map, then
+    ImageWriter.write_image): per the macro documentation every frame gets the delay given (a delay also becomes the
+    default for the frames that follow; 32 at first) and the offsets given (default (0,0) for every frame); the APNG
+    holds one frame per specification, with those delays and offsets, each decoding to the display rules."""
+    from skoolkit import skoolmacro
+    from skoolkit.graphics import Udg, Frame
+    from skoolkit.image import ImageWriter
+    rnd = random.Random(seed * 31 + 5)
+    bad = []
+    ev = 0
+    for t in range(n):
+        ev += 1
+        nf = rnd.randrange(1, 6)
+        scale = rnd.randrange(1, 3)
+        fmap = {}
+        tiles = {}
+        for k in range(nf):
+            cw, ch = (3, 2) if k == 0 else (rnd.randrange(1, 3), rnd.randrange(1, 3))
+            udgs = [[Udg(rnd.choice((56, 7, 71, 120, 15)), [rnd.randrange(256) for _ in range(8)]) for _ in range(cw)] for _ in range(ch)]
+            tiles['f%d' % k] = udgs
+            fmap['f%d' % k] = Frame(udgs, scale)
+        specs = []
+        exp = []
+        delay = 32
+        for k in range(nf):
+            form = rnd.randrange(7) if t >= 14 else (t // 2 if k == nf - 1 else rnd.choice((3, 4)))
+            # (offsets keep the frame inside the first frame's canvas, 3 x 2 tiles: APNG requires it and skoolkit leaves it to the author)
+            fw_, fh_ = len(tiles['f%d' % k][0]), len(tiles['f%d' % k])
+            d, x, y = rnd.randrange(1, 200), rnd.randrange(0, (3 - fw_) * 8 * scale + 1), rnd.randrange(0, (2 - fh_) * 8 * scale + 1)
+            if k == 0:
+                x = y = 0
+            if form == 0:
+                txt, e = '', (delay, 0, 0)
+            elif form == 1:
+                txt, e = ',%d' % d, (d, 0, 0)
+            elif form == 2:
+                txt, e = ',%d,%d' % (d, x), (d, x, 0)
+            elif form == 3:
+                txt, e = ',%d,%d,%d' % (d, x, y), (d, x, y)
+            elif form == 4:
+                txt, e = ',,%d,%d' % (x, y), (delay, x, y)
+            elif form == 5:
+                txt, e = ',(delay=%d)' % d, (d, 0, 0)
+            else:
+                txt, e = ',,%d' % x, (delay, x, 0)
+            delay = e[0]
+            specs.append('f%d%s' % (k, txt))
+            exp.append(e)
+        text = '(%s)(img)' % ';'.join(specs)
+        try:
+            end, fname, alt, frames = skoolmacro.parse_frames(text, 0, None, fmap)
+            got = [(f.delay, f.x_offset, f.y_offset) for f in frames]
+            if got != exp:
+                k = next(i for i in range(len(exp)) if i >= len(got) or got[i] != exp[i])
+                bad.append(('frame %d of #FRAMES%s gets (delay, x, y) = %s, the documentation gives %s' % (k + 1, text, got[k] if k < len(got) else None, exp[k]), text, 'spec'))
+                continue
+            iw = ImageWriter({'PNGEnableAnimation': 1})
+            f = io.BytesIO()
+            iw.write_image(frames, f)
+            W_, H_, fr = decode_apng_frames(f.getvalue())
+            colours = [c[1] for c in iw.get_default_colours()]
+            if len(fr) != nf:
+                bad.append(('%d frames in the image, %d specified' % (len(fr), nf), text, 'image'))
+                continue
+            for k, (fx, fy, fw, fh, dn, dd, rows) in enumerate(fr):
+                e = exp[k]
+                if nf > 1 and ((fx, fy) != (e[1], e[2]) or dn * 100 != e[0] * dd):
+                    bad.append(('frame %d is placed at (%d,%d) with delay %d/%d, specified (%d,%d), %d/100' % (k + 1, fx, fy, dn, dd, e[1], e[2], e[0]), text, 'image'))
+                    break
+                udgs = tiles['f%d' % k]
+                want = [[tuple(colours[c]) for c in row] for row in render(udgs, scale, 0, 0, 0, len(udgs[0]) * 8 * scale, len(udgs) * 8 * scale, iw)]
+                if [[tuple(px) for px in row] for row in rows] != want:
+                    bad.append(('frame %d does not decode to the display rules' % (k + 1), text, 'image'))
+                    break
+        except AssertionError as ex:
+            bad.append(('invalid APNG: %s' % ex, text, 'image'))
+        except Exception as ex:
+            bad.append(('exception %r' % (ex,), text, 'exception'))
+        if len(bad) > 4:
+            break
     return ev, bad
 
 
